@@ -585,6 +585,10 @@ func run(c *fw.Ctx) error {
 				if i := strings.Index(mode, " after chunk:"); i >= 0 {
 					mode = mode[:i]
 				}
+				if b.Prog.Name != "" && strings.HasPrefix(mode, "accumulated output differs") {
+					// a pinned witness is pinned with what it prints: another wrong output is another failure
+					mode += ": " + strings.ReplaceAll(strings.TrimSpace(o.Stdout), "\n", " / ")
+				}
 				c.Fail(trig, stripPos(mode), rep)
 			case o.Stdout != wantOut:
 				c.Fail(trig, "final output differs", rep)
